@@ -159,6 +159,12 @@ func (sesh *Session) OpenStream() (*Stream, error) {
 	}
 	stream := makeStream(sesh, id)
 	sesh.streamsM.Lock()
+	// closeSession marks the session closed before it sweeps the stream table under streamsM,
+	// so a session found open here will still sweep (and close) the stream we insert
+	if sesh.IsClosed() {
+		sesh.streamsM.Unlock()
+		return nil, ErrBrokenSession
+	}
 	sesh.streams[id] = stream
 	sesh.streamsM.Unlock()
 	sesh.streamCountIncr()
